@@ -119,6 +119,21 @@ CHECKS["C07"] = dict(
     technique="TLA+ decoder automaton with environment-chosen field classes model-checked by TLC; its behaviours concretised to bytes and "
               "replayed on the real decoders in a sandbox; recorded outcomes validated by TLC against a byte-level reference decoder")
 
+CHECKS["C02"] = dict(
+    level="exploration",
+    text="Within.tla defines Classify (exact even-odd rule with on-segment test over integer determinants, implicit closing segment, "
+         "rings < 3 vertices ignored, all member polygons) and transcribes pointInPolygonal/rayIntersectsSegment (bounding-box "
+         "pre-filter, nudged ray as an infinitesimal, cross-multiplied slope comparison); TLC proves the transcription equal to "
+         "Classify for every ring of the small lattice and every lattice point. TLC-enumerated rings (degenerate, self-intersecting, "
+         "clockwise, closed, unclosed), two-ring polygons, two-member multi-polygons and aggregate receivers are put to the real "
+         "Point.Within for every half-integer lattice point, and seeded random polygons up to 2^14 with adversarial query points; "
+         "WithinTrace.tla compares every recorded answer with Classify.",
+    design_ref="DESIGN.md section 5, C02",
+    note="Trusted: TLC, exactness of float64 on small (half-)integers and on integers <= 2^14 scaled by powers of two. Arbitrary "
+         "non-dyadic floats are not covered.",
+    technique="TLA+ exact point-in-polygon oracle + transcription of the ray-casting code checked equal by TLC; TLC-enumerated cases "
+              "replayed on the code and validated by TLC (trace validation)")
+
 NOT_YET = "check not built yet in this round of work; will be claimed when its specification, replay and trace validation exist"
 NA = {
     "C09": "oracle is proj4js 2.3.12 and closed-form geodesy (real-valued transcendental functions, a JavaScript program that "
